@@ -20,6 +20,11 @@ from yatiml.util import ScalarType, scalar_type_to_tag
 
 _Any = NewType('_Any', int)
 
+# YAML spells numbers differently from Python (0x1F, 1_000, 1:30, .inf),
+# so reading and writing them is left to PyYAML.
+_yaml_constructor = yaml.constructor.SafeConstructor()
+_yaml_representer = yaml.representer.SafeRepresenter()
+
 
 class Node:
     """A wrapper class for yaml Nodes that provides utility functions.
@@ -89,9 +94,11 @@ class Node:
         if self.yaml_node.tag == 'tag:yaml.org,2002:str':
             return str(self.yaml_node.value)
         if self.yaml_node.tag == 'tag:yaml.org,2002:int':
-            return int(self.yaml_node.value)
+            return cast(int, _yaml_constructor.construct_yaml_int(
+                self.yaml_node))
         if self.yaml_node.tag == 'tag:yaml.org,2002:float':
-            return float(self.yaml_node.value)
+            return cast(float, _yaml_constructor.construct_yaml_float(
+                self.yaml_node))
         if self.yaml_node.tag == 'tag:yaml.org,2002:bool':
             return self.yaml_node.value in ['TRUE', 'True', 'true']
         if self.yaml_node.tag == 'tag:yaml.org,2002:null':
@@ -351,12 +358,14 @@ class Node:
             if value_node.tag == 'tag:yaml.org,2002:int':
                 if not isinstance(default, (int, float)):
                     return False
-                return int(value_node.value) == default
+                return bool(_yaml_constructor.construct_yaml_int(
+                    value_node) == default)
 
             if value_node.tag == 'tag:yaml.org,2002:float':
                 if not isinstance(default, (int, float)):
                     return False
-                return float(value_node.value) == default
+                return bool(_yaml_constructor.construct_yaml_float(
+                    value_node) == default)
 
             if value_node.tag == 'tag:yaml.org,2002:bool':
                 if default is False:
